@@ -65,6 +65,19 @@ def run_step(laze, tmp, root, cli, sc, stop=0, extra_env=None):
                 ninja=open(nf, "rb").read() if os.path.exists(nf) else None,
                 cache_exists=os.path.exists(cache_path(root, cli)))
 
+def other_binary(root, oldbin):
+    """what a change of the laze binary means for the build directory: every cache in it was written
+    by another binary. The build uuid is the first 16 bytes of a cache file and is used for nothing but
+    the comparison with the running binary's; so the caches are re-stamped with a foreign uuid (bin ids
+    only grow within a history, a foreign stamp never becomes current again)."""
+    for name in ("laze-cache-global.bincode", "laze-cache-local.bincode"):
+        p = os.path.join(root, "build", name)
+        if os.path.exists(p):
+            st = os.stat(p)
+            with open(p, "r+b") as f:
+                f.write(b"verif-other-bin" + bytes([oldbin % 256]))
+            os.utime(p, ns=(st.st_atime_ns, st.st_mtime_ns))
+
 def setup_dir():
     tmp = tempfile.mkdtemp(prefix=e2e.SCRATCH_PREFIX); root = os.path.join(tmp, "p")
     os.makedirs(root)
@@ -80,12 +93,14 @@ def execute(laze, h, fresh_check=True):
     try:
         tree = {}
         apply_tree(root, h["versions"], tree, h["tree0"]); tree = dict(h["tree0"])
-        steps = []
+        steps = []; curbin = 1
         for op in h["ops"]:
             if op["op"] == "edit":
                 apply_tree(root, h["versions"], tree, op["tree"]); tree = dict(op["tree"])
                 steps.append(None)
             else:
+                if op.get("bin", 1) != curbin:
+                    other_binary(root, curbin); curbin = op.get("bin", 1)
                 steps.append(run_step(laze, tmp, root, op["cli"], op.get("sc", {}), op.get("stop", 0)))
         fresh = None
         last = h["ops"][-1]
@@ -195,6 +210,17 @@ def property_check(h, steps, fresh):
             missing = stmts_of(b) - stmts_of(a)
             if missing: v.append("the ninja file left by the cache hit lacks %d statement(s) of a fresh run, e.g. %r" % (len(missing), sorted(missing)[0][:200]))
         elif a != b: v.append("regenerated ninja file differs from a fresh run's")
+    return v
+
+def binary_check(h, steps):
+    """'never after the binary changed': the first run of a binary in a slot cannot be served from the cache"""
+    seen = set(); v = []
+    for i, (op, o) in enumerate(zip(h["ops"], steps)):
+        if op["op"] != "run": continue
+        key = (op["cli"].get("local") is not None, op.get("bin", 1))
+        if o["cache_hit"] and key not in seen:
+            v.append("step %d is served from a cache that another laze binary wrote" % i)
+        seen.add(key)
     return v
 
 # ---------------------------------------------------------------- generation of histories
@@ -317,7 +343,7 @@ def gen_history(rng, faults=(1, 2, 3, 4, 5, 6, 7)):
                 if pool_a and rng.random() < 0.4: c["apps"] = rng.sample(pool_a, rng.randint(1, len(pool_a)))
             return c
         return rng.choice(clis)
-    n = rng.randint(2, 6)
+    n = rng.randint(2, 6); curbin = [1]
     # a good first run most of the time so that there is a cache to talk about
     ops.append(dict(op="run", cli=clis[0] if rng.random() < 0.7 else rng.choice(clis), stop=0, sc=scen()))
     for _ in range(n):
@@ -337,6 +363,8 @@ def gen_history(rng, faults=(1, 2, 3, 4, 5, 6, 7)):
             ops.append(dict(op="edit", tree=dict(tree)))
         else:
             stop = rng.choice(faults) if rng.random() < 0.25 else 0
-            ops.append(dict(op="run", cli=pick_cli(), stop=stop, sc=scen()))
-    ops.append(dict(op="run", cli=pick_cli(), stop=0, sc=scen()))
+            if rng.random() < 0.08: curbin[0] += 1                         # from here on another laze binary
+            ops.append(dict(op="run", cli=pick_cli(), stop=stop, sc=scen(), bin=curbin[0]))
+    if rng.random() < 0.05: curbin[0] += 1
+    ops.append(dict(op="run", cli=pick_cli(), stop=0, sc=scen(), bin=curbin[0]))
     return dict(versions=versions, tree0={f: 1 for f in files}, ops=ops)
